@@ -13,7 +13,7 @@ from pyvc.tree import (SEQ_ATTR as SeqAttr, ATTR_PAIR as AttrPair, PAT as Pat, A
                        FLAGS as Flags)
 from spec.vocab_tree import (parent, contents, idx, depth, is_tag, is_doc, is_navstr, is_comment, is_cdata, is_pi, is_decl,
                              is_doctype, text, name, prefix, namespace, is_xml_flag, next_sibling, previous_sibling, same,
-                             ascii_lower, ns_get, html_ns_map, fake_parent, rattrs, norm, as_str, is_str_val, ws_tokens, is_list_val, as_list, attr_ns, attr_local, pat_match, join_sp, has_non_ws, strip_nonempty, wild_strip, py_lower, split_dash, NS_XHTML, NS_XML)
+                             ascii_lower, ns_get, html_ns_map, fake_parent, rattrs, norm, as_str, is_str_val, ws_tokens, is_list_val, as_list, attr_ns, attr_local, pat_match, join_sp, has_non_ws, strip_nonempty, wild_strip, py_lower, split_dash, join_empty, NS_XHTML, NS_XML)
 from spec.vocab_ir import (sel_is_null, SEL_EMPTY, SEL_ROOT, SEL_DEFAULT, SEL_INDETERMINATE, SEL_SCOPE, SEL_DIR_LTR, SEL_DIR_RTL,
                            SEL_IN_RANGE, SEL_OUT_OF_RANGE, SEL_DEFINED, SEL_PLACEHOLDER_SHOWN, DIR_FLAGS, RANGES)
 
@@ -146,16 +146,6 @@ def sem_tag(m: M, ns: NsMap, el: Node, tag: OptSelTag) -> bool:
 from spec import css_ref as _ref   # noqa: E402  executable bodies of the SMT-abstract sub-specs
 
 
-@abstract
-def sem_defined(m: M, el: Node) -> bool:
-    return _ref.sem_defined(m, el)
-
-
-@abstract
-def sem_placeholder(m: M, el: Node) -> bool:
-    return _ref.sem_placeholder(m, el)
-
-
 # ---- An+B (C02): position among the qualifying element siblings, closed form of  exists n >= 0 . a*n + b == pos
 
 def anb(a: int, b: int, var: bool, q: int) -> bool:
@@ -239,11 +229,6 @@ def sem_dir(m: M, el: Node, d: Flags) -> bool:
 def tag_desc(m: M, el: Node, no_iframe: bool) -> SeqNode:
     """Tag descendants of el in document order (not descending into iframes when no_iframe)."""
     return _ref.tag_desc(m, el, no_iframe)
-
-
-@abstract
-def tag_children(m: M, el: Node, no_iframe: bool) -> SeqNode:
-    return _ref.tag_children(m, el, no_iframe)
 
 
 # ---------------------------------------------------------------------------------------------- lists, compounds
@@ -473,13 +458,6 @@ def unesc(content: str, string: bool) -> str:
     so contracts that mention it are about how callers compose it, not about its value)."""
     from soupsieve import css_parser as _cp
     return _cp.css_unescape(content, string)
-
-
-@abstract
-def kids_spec(m: M, el: Node, start: OptInt, reverse: bool, tags: bool, no_iframe: bool) -> SeqNode:
-    """get_children(): contents of el from `start` (default: the first, or the last when reversed), forwards or backwards,
-    only Tags when asked; nothing for a missing element or (no_iframe) an iframe."""
-    return _ref.kids_spec(m, el, start, reverse, tags, no_iframe)
 
 
 # ---------------------------------------------------------------------------------------------- attributes (C01.O5, C11.O3, C18)
@@ -754,18 +732,6 @@ def lang_filter(rng: str, tag: str) -> bool:
 
 # ---------------------------------------------------------------------------------------------- :-soup-contains (C19.O2, O3)
 
-@abstract
-def text_of(m: M, el: Node, no_iframe: bool) -> str:
-    """Concatenation, in document order, of the content strings among the descendants of el (iframe content skipped on request)."""
-    return _ref.text_of(m, el, no_iframe)
-
-
-@abstract
-def own_texts(m: M, el: Node, no_iframe: bool) -> SeqStr:
-    """The content strings that are direct children of el, each separately."""
-    return _ref.own_texts(m, el, no_iframe)
-
-
 def any_hay(needle: str, hays: SeqStr, i: int) -> bool:
     """needle occurs within a single one of hays[i:]."""
     if i < 0 or i >= len(hays):
@@ -800,3 +766,75 @@ def all_contains(m: M, el: Node, cs: SeqSelContains, i: int) -> bool:
 
 def sem_contains(m: M, el: Node, contains: SeqSelContains) -> bool:
     return all_contains(m, el, contains, 0)
+
+
+# ---------------------------------------------------------------------------------------------- children / text (C02.O2, C19.O2)
+
+def keep1(n: Node, tags: bool) -> SeqNode:
+    return [n] if (not tags or is_tag(n)) else []
+
+
+def kids_up(c: SeqNode, i: int, tags: bool) -> SeqNode:
+    """c[i], c[i+1], ... (only Tags when asked)."""
+    if i < 0 or i >= len(c):
+        return []
+    return keep1(c[i], tags) + kids_up(c, i + 1, tags)
+
+
+def kids_down(c: SeqNode, i: int, tags: bool) -> SeqNode:
+    """c[i], c[i-1], ..., c[0]."""
+    if i < 0 or i >= len(c):
+        return []
+    return keep1(c[i], tags) + kids_down(c, i - 1, tags)
+
+
+def kids_spec(m: M, el: Node, start: OptInt, reverse: bool, tags: bool, no_iframe: bool) -> SeqNode:
+    """get_children(): contents of el from `start` (default: the first, or the last when reversed), forwards or backwards,
+    only Tags when asked; nothing for a missing element or (no_iframe) an iframe."""
+    if el is None or (no_iframe and is_iframe_el(m, el)):
+        return []
+    c = contents(el)
+    first = (len(c) - 1 if reverse else 0) if start is None else start
+    if first < 0 or first > len(c) - 1:
+        return []
+    return kids_down(c, first, tags) if reverse else kids_up(c, first, tags)
+
+
+def tag_children(m: M, el: Node, no_iframe: bool) -> SeqNode:
+    return kids_spec(m, el, None, False, True, no_iframe)
+
+
+def texts_from(seq: SeqNode, i: int) -> SeqStr:
+    """The content strings among seq[i:], each separately, in order."""
+    if i < 0 or i >= len(seq):
+        return []
+    if is_content(seq[i]):
+        return [text(seq[i])] + texts_from(seq, i + 1)
+    return texts_from(seq, i + 1)
+
+
+def own_texts(m: M, el: Node, no_iframe: bool) -> SeqStr:
+    """The content strings that are direct children of el, each separately."""
+    return texts_from(own_contents(m, el, no_iframe), 0)
+
+
+@abstract
+def desc_spec(m: M, el: Node, tags: bool, no_iframe: bool) -> SeqNode:
+    """get_descendants(): pre-order descendants (only Tags when asked), not descending into iframes when no_iframe."""
+    return _ref.desc_spec(m, el, tags, no_iframe)
+
+
+def text_of(m: M, el: Node, no_iframe: bool) -> str:
+    """Concatenation, in document order, of the content strings among the descendants of el."""
+    return join_empty(texts_from(desc_spec(m, el, False, no_iframe), 0))
+
+
+def sem_defined(m: M, el: Node) -> bool:
+    """:defined (reading documented in the matcher): not a custom element name (no hyphen), or a qualified/prefixed name."""
+    n = tag_name(m, el)
+    return ('-' not in n) or (':' in n) or (prefix(el) is not None)
+
+
+def sem_placeholder(m: M, el: Node) -> bool:
+    """:placeholder-shown extra condition: no content (a single newline does not count)."""
+    return text_of(m, el, False) == '' or text_of(m, el, False) == '\n'
